@@ -533,6 +533,113 @@ def unit_nested_copies(unit):
     return agg
 
 
+def unit_region_sources(unit):
+    """`t[rows, cols] = other_table` (and a list of the other table's live columns, a row of it): the SOURCE is an operand of the
+    write, not its target - it, and a column handle taken from it before, keep contents, names and dtypes.  Destination kinds x
+    source kinds along both ladders (the source narrower, equal, wider), every 2-row region of a 3x2 destination."""
+    from datetime import date, datetime
+    from serif import Vector, Table
+    agg = Agg()
+    kinds = {"bool": [True, False], "int": [7, 8], "float": [0.5, 1.5], "complex": [1j, 2j], "date": [date(2020, 1, 1), date(2020, 1, 2)],
+             "datetime": [datetime(2020, 1, 1, 5), datetime(2020, 1, 2, 6)], "str": ["p", "q"]}
+    dest3 = {"bool": [True, True, False], "int": [1, 2, 3], "float": [0.25, 1.25, 2.25], "complex": [3j, 4j, 5j], "date": [date(2019, 1, 1)] * 3,
+             "datetime": [datetime(2019, 1, 1, 1)] * 3, "str": ["a", "b", "c"]}
+    for dk in dest3:
+        for sk in kinds:
+            for rows in (slice(0, 2), slice(1, 3), slice(None, None, 2)):
+                for how in ("table", "list-of-live-columns", "tuple-of-live-columns", "sliced-table", "row"):
+                    dest = Table([Vector(list(dest3[dk]), name="d0"), Vector(list(dest3[dk]), name="d1")])
+                    src = Table([Vector(list(kinds[sk]), name="s0"), Vector(list(kinds[sk]), name="s1")])
+                    handle = src["s0"]
+                    before = (obs(src), obs(handle))
+                    case = {"destination_kind": dk, "source_kind": sk, "rows": [rows.start, rows.stop, rows.step], "value": how,
+                            "derivation": None}
+                    agg.evals += 1; agg.states += 1; agg.transitions += 1; agg.compared += 2; agg.nontrivial += 1
+                    try:
+                        if how == "table":
+                            dest[rows, :] = src
+                        elif how == "list-of-live-columns":
+                            dest[rows, :] = [src["s0"], src["s1"]]
+                        elif how == "tuple-of-live-columns":
+                            dest[rows, ("d0", "d1")] = (src.s0, src.s1)
+                        elif how == "sliced-table":
+                            dest[rows, 0:2] = src[0:2]
+                        else:
+                            dest[1] = src[0]
+                    except Exception:
+                        agg.outcomes["write-refused"] += 1
+                        if (obs(src), obs(handle)) != before:
+                            agg.violation(V("write.region-from-table", "refused-assignment-changed-its-source", case, _brief(before[0]), _brief(obs(src))))
+                        continue
+                    if (obs(src), obs(handle)) != before:
+                        agg.violation(V("write.region-from-table", "assignment-changed-the-table-the-values-came-from", case, _brief(before[0]), _brief(obs(src))))
+                    else:
+                        agg.outcomes["write-stays-local"] += 1
+    return agg
+
+
+def unit_refusal_class(unit):
+    """"A write that cannot be kept local is refused with AliasError and changes nothing": storage shared through the public
+    routes (two vectors over one caller tuple; `t.b = tup` with `Vector(tup)` alive; `Vector(col.cols())`), then every write
+    form through either handle and through the table - the refusal IS an AliasError (not merely some error), nothing changed."""
+    from serif import Vector, Table
+    from serif.alias_tracker import AliasError
+    agg = Agg()
+
+    def routes():
+        def two_vectors():
+            tup = (1, 2, 3)
+            a, b = Vector(tup), Vector(tup)
+            return {"a": a, "b": b}, [("a", a), ("b", b)], None
+        def column_set_from_tuple():
+            tup = (4, 5, 6)
+            t = Table({"a": [7, 8, 9], "b": [1, 2, 3]})
+            t.b = tup
+            w = Vector(tup)
+            return {"t": t, "w": w}, [("w", w), ("t.b", t["b"])], (t, "b")
+        def vector_over_column_storage():
+            t = Table({"a": [7, 8, 9], "b": [1, 2, 3]})
+            w = Vector(t["b"].cols())
+            return {"t": t, "w": w}, [("w", w), ("t.b", t["b"])], (t, "b")
+        return [("two vectors over one tuple", two_vectors), ("t.b = tuple, Vector(tuple) alive", column_set_from_tuple),
+                ("Vector(column.cols())", vector_over_column_storage)]
+    vwrites = [("v[0]=", lambda v: v.__setitem__(0, 99)), ("v[-1]=None", lambda v: v.__setitem__(-1, None)), ("v[0:2]=", lambda v: v.__setitem__(slice(0, 2), [8, 9])),
+               ("v[mask]=", lambda v: v.__setitem__([True, False, True], 0)), ("v[[0,2]]=", lambda v: v.__setitem__([0, 2], [5, 6])), ("v[1]=2.5", lambda v: v.__setitem__(1, 2.5))]
+    twrites = [("t[0,c]=", lambda t, c: t.__setitem__((0, c), 99)), ("t[0]=row", lambda t, c: t.__setitem__(0, [50, 60])), ("t[:,c]=list", lambda t, c: t.__setitem__((slice(None), c), [1, 1, 1])),
+               ("t[0:2,:]=table", lambda t, c: t.__setitem__((slice(0, 2), slice(None)), Table({"x": [1, 2], "y": [3, 4]}))), ("t[:,(a,b)]=0", lambda t, c: t.__setitem__((slice(None), ("a", "b")), 0)),
+               ("t[mask]=0", lambda t, c: t.__setitem__([True, False, False], 0)), ("t[1,:]=", lambda t, c: t.__setitem__((1, slice(None)), [3, 4])), ("t[0,c]=None", lambda t, c: t.__setitem__((0, c), None))]
+    for rname, mk in routes():
+        objs, handles, tab = mk()
+        plans = [(f"{hn}: {wl}", hn, wf, None) for hn, _ in handles for wl, wf in vwrites]
+        if tab is not None:
+            plans += [(f"table: {wl}", None, None, wf) for wl, wf in twrites]
+        for label, hn, vf, tf in plans:
+            objs, handles, tab = mk()
+            before = {k: obs(o) for k, o in objs.items()}
+            case = {"sharing": rname, "write": label, "derivation": None}
+            agg.evals += 1; agg.states += 1; agg.transitions += 1; agg.compared += 1; agg.nontrivial += 1
+            try:
+                if tf is not None:
+                    tf(tab[0], tab[1])
+                else:
+                    vf(dict(handles)[hn])
+                raised = None
+            except Exception as e:
+                raised = e
+            after = {k: obs(o) for k, o in objs.items()}
+            if raised is None:
+                # kept local after all (e.g. the implementation copies on write): then only the written object may differ
+                agg.outcomes["write-kept-local"] += 1
+                continue
+            if after != before:
+                agg.violation(V("write.refusal", "refused-write-changed-something", case, None, type(raised).__name__))
+            elif not isinstance(raised, AliasError):
+                agg.violation(V("write.refusal", "write-on-shared-storage-refused-with-another-error-than-AliasError", case, "AliasError", type(raised).__name__ + ": " + str(raised)[:80]))
+            else:
+                agg.outcomes["refused:AliasError"] += 1
+    return agg
+
+
 def plan(level_full_kinds, all_kinds=None):
     units = []
     for kind in (all_kinds or KINDS):
